@@ -340,7 +340,37 @@ pub fn special(cmd: &str, _args: &[String]) -> bool {
                     prod_bad += 1;
                 }
             }
-            println!("f32sweep checked={} bad={} empty_is_err={} product_sample_bad={} examples={:?}", n, bad.len(), empty_err as u8, prod_bad, bad);
+            // every text of the weight grammar is a number for `f32::from_str`, and a number of [0,1] (seeded sample of
+            // texts: up to 60 fractional digits, long runs of zeros / nines, leading zeros after the point)
+            let mut gram_bad = 0u64;
+            let mut gram_n = 0u64;
+            for i in 0..1_000_000u64 {
+                let t: String = match i % 5 {
+                    0 => "0".to_string(),
+                    1 => "1".to_string(),
+                    2 => format!("1.{}", "0".repeat(1 + (rng.next() % 40) as usize)),
+                    3 => {
+                        let len = 1 + (rng.next() % 60) as usize;
+                        let fill = if rng.next() % 2 == 0 { '9' } else { '0' };
+                        let mut d: String = std::iter::repeat(fill).take(len).collect();
+                        if rng.next() % 2 == 0 {
+                            d.push(char::from(b'0' + (rng.next() % 10) as u8));
+                        }
+                        format!("0.{}", d)
+                    }
+                    _ => {
+                        let len = 1 + (rng.next() % 60) as usize;
+                        let d: String = (0..len).map(|_| char::from(b'0' + (rng.next() % 10) as u8)).collect();
+                        format!("0.{}", d)
+                    }
+                };
+                gram_n += 1;
+                match t.parse::<f32>() {
+                    Ok(x) if in_weight_grammar(&t) && 0.0 <= x && x <= 1.0 && !x.is_sign_negative() => {}
+                    _ => gram_bad += 1,
+                }
+            }
+            println!("f32sweep checked={} bad={} empty_is_err={} product_sample_bad={} grammar_texts={} grammar_texts_bad={} examples={:?}", n, bad.len(), empty_err as u8, prod_bad, gram_n, gram_bad, bad);
             true
         }
         "drain2m" => {
